@@ -70,7 +70,11 @@ func mkReader(doc string) io.Reader {
 	if h < 0 {
 		h = -h
 	}
-	switch h % 6 {
+	switch h % 8 {
+	case 6:
+		return &dataEOFReader{data: []byte(doc)} // the last bytes come TOGETHER with io.EOF
+	case 7:
+		return &stutterReader{r: strings.NewReader(doc)} // (0, nil) before every real read
 	case 0:
 		return strings.NewReader(doc)
 	case 1:
@@ -87,6 +91,37 @@ func mkReader(doc string) io.Reader {
 		}
 		return iotest1{strings.NewReader(doc)} // one byte per Read
 	}
+}
+
+type dataEOFReader struct {
+	data []byte
+	done bool
+}
+
+func (d *dataEOFReader) Read(p []byte) (int, error) {
+	if d.done {
+		return 0, io.EOF
+	}
+	n := copy(p, d.data)
+	d.data = d.data[n:]
+	if len(d.data) == 0 {
+		d.done = true
+		return n, io.EOF
+	}
+	return n, nil
+}
+
+type stutterReader struct {
+	r    io.Reader
+	flip bool
+}
+
+func (s *stutterReader) Read(p []byte) (int, error) {
+	s.flip = !s.flip
+	if s.flip {
+		return 0, nil
+	}
+	return s.r.Read(p)
 }
 
 type iotest1 struct{ r io.Reader }
